@@ -17,9 +17,11 @@ that for **static pools** no such state exists, whatever the schedule:
 The excluded configurations are exactly where the listed findings live (time-out + dropped executor: D4; a death while a
 lock is held: D5, D7) plus worker respawn, whose liveness is still decided by the E1 oracle only.
 
-What is proved is deadlock freedom — no reachable quiescent state is a bad one — not termination: no measure excludes
-infinite runs (under an unfair scheduler the `queue.Full` back-off of `shutdown_workers` can even end the manager thread
-with an exception; that state is not a bad one either: every future is resolved and every call returns).
+What is proved in this file is deadlock freedom — no reachable quiescent state is a bad one.  Termination (no crash-free
+run of a static pool is infinite, with an explicit bound, under ANY scheduler) is `Props/C01Term.lean`; together: every
+maximal crash-free run ends, after at most `mu (init cfg)` steps, in a good state.  (The `queue.Full` back-off of
+`shutdown_workers` can end the manager thread with an exception; that state is not a bad one either: every future is
+resolved and every call returns.)
 -/
 namespace LokyModel.Exec
 
